@@ -117,6 +117,30 @@ def exec_stack_ops(execlog):
     return done
 
 
+def out_check(c, cur, st):
+    """output checker c (0 equals, 1 parity, 2 always) applied to the current output text and the recorded stamp text"""
+    try:
+        v = int(cur)
+        if c == '0': return str(v) == st or cur == st
+        if c == '2': return True
+    except ValueError:
+        pass
+    return None
+
+
+def res_check(c, val, st):
+    """resource checker c (0 exact, 1 parity, 2 exists, 3 always) applied to the current content and the recorded stamp (model encoding)"""
+    try:
+        s_ = int(st)
+    except ValueError:
+        return None
+    if c == '0': return (0 if val is None else val + 1) == s_
+    if c == '1': return (0 if val is None else 1 + val % 2) == s_
+    if c == '2': return (0 if val is None else 1) == s_
+    if c == '3': return True
+    return None
+
+
 def run_oracles(prog, meta, sessions):
     """sessions: list of P.Sess of one case (implementation side, with fresh references).  Returns findings."""
     out = []
@@ -124,6 +148,7 @@ def run_oracles(prog, meta, sessions):
     had_abort = False
     latest_ops = {}
     prev_nodes = {}
+    prev_map = None
     shadow = Shadow()
     td_exec_since_bu = False        # a top-down session executed something since the last bottom-up build (or the start)
     td_exec_before_last_bu = False  # ... as it was when the last bottom-up build started: the recorded finding O4 needs it
@@ -210,7 +235,32 @@ def run_oracles(prog, meta, sessions):
             if extra:
                 out.append(('C02', 'unnecessary-execution', '%s: executed %r which a from-scratch build of the current state does not execute' % (where, sorted(extra))))
 
+        # ---- C02: a task that had an output is executed only if one of the dependencies it had recorded is inconsistent: for a
+        # require, with the output the required task has AFTER it was made consistent (early cut-off); for a resource, with its content
+        if q_only and not ab and not had_abort and not s.errs and wf and not prog.uses_failing and prev_nodes and prev_map is not None and prog.kind == 'wf':
+            now = P.parse_dump(s.dump)
+            for t in counts:
+                nd = prev_nodes.get('T%d' % t)
+                if nd is None or nd['out'] == '-' or not nd['outs']: continue
+                allok = True
+                for (k, tgt, c, st) in nd['outs']:
+                    if k == 'Q':
+                        cur = now.get(tgt, {}).get('out', '-')
+                        ok = cur != '-' and out_check(c, cur, st)
+                    elif k in ('R', 'W'):
+                        r = tgt[1:]
+                        if not r.isdigit() or s.pre_map is None or s.pre_map.get(int(r)) != s.map.get(int(r)): ok = False     # content changed during the session: not judged here
+                        else: ok = res_check(c, s.pre_map.get(int(r)), st)
+                    else:
+                        ok = False
+                    if ok is not True:
+                        allok = False; break
+                if allok:
+                    out.append(('C02', 'executed-with-consistent-dependencies', '%s: task %d was executed although every dependency it had recorded is consistent: the tasks it required have, once made consistent, outputs its checkers accept, and the resources it read or wrote are unchanged' % (where, t)))
+
         # ---- C03: probe after a complete bottom-up build
+        if s.step in meta.get('probe_steps', {}) and ab and not had_abort and wf and not prog.uses_failing:
+            out.append(('C03', 'probe-aborts-after-bottom-up', '%s: after the bottom-up build, requiring the known tasks aborted (%s) instead of returning their up-to-date outputs' % (where, ','.join(kinds))))
         if s.step in meta.get('probe_steps', {}) and not ab and not had_abort and wf:
             stale = sorted(t for t in counts if t in completed)
             mixed = meta.get('mode') == 'mixed' and td_exec_before_last_bu
@@ -222,6 +272,22 @@ def run_oracles(prog, meta, sessions):
             elif s.fresh_ops is not None and all('abort' not in o for o in s.fresh_ops) and s.ops != s.fresh_ops:
                 d = next((a, b) for a, b in zip(s.ops, s.fresh_ops) if a != b)
                 out.append(('C03', 'stale-output-after-bottom-up', '%s: %r but from scratch %r' % (where, d[0], d[1])))
+
+        # ---- C09 (C03): scheduling for a reported resource checks every recorded read and write dependency on it with its own checker
+        if is_bu and prev_nodes:
+            i = 0
+            evs = [e.split() for e in s.events]
+            while i < len(evs) and evs[i][0] != 'BS':
+                if evs[i][0] == 'SBRS':
+                    r = evs[i][1]; j = i + 1; seen = []
+                    while j < len(evs) and evs[j][0] != 'SBRE':
+                        if evs[j][0] == 'CDS': seen.append('T' + evs[j][1])
+                        j += 1
+                    want = sorted(src for (k, src) in prev_nodes.get('R' + r, {}).get('ins', []) if k in ('R', 'W'))
+                    if sorted(seen) != want:
+                        out.append(('C09', 'dependency-not-checked', '%s: scheduling for the reported resource R%s checked the dependencies of %r, the store records dependencies of %r on it: each is decided by its own checker' % (where, r, sorted(seen), want)))
+                    i = j
+                i += 1
 
         # ---- C04: executions in a bottom-up build are scheduled or first-time
         if is_bu:
@@ -466,6 +532,7 @@ def run_oracles(prog, meta, sessions):
             out.append(('C18', 'errors-not-reported', '%s: checkers returned errors %r during validation, the session reports %r' % (where, ev_errs, s.errs)))
 
         prev_nodes = nodes
+        prev_map = dict(s.map)
         if is_bu:
             td_exec_before_last_bu = td_exec_since_bu; td_exec_since_bu = False
         elif counts and s.step not in meta.get('probe_steps', {}):
